@@ -162,7 +162,12 @@ def integrator_with_faces(run, funcs, pid):
         for k, src in ((0, c0), (2, c2)):
             prove_kept(run, pid, 'VoronoiIntegrator::with_faces slot %d' % k, pre0 + pre2, st, src, cells2.items[k].items[0], KEEP, native='integrator_with_faces')
     else:
-        run.suspect.append('%s VoronoiIntegrator::with_faces: cell slots are not mapped in place (Some, None, Some)' % pid)
+        pl = {'kind': 'integrator_with_faces'}
+        bad = check_integrator_with_faces_native(pl)
+        if bad:
+            run.violation('%s VoronoiIntegrator::with_faces does not map the cell slots in place (Some, None, Some): %s' % (pid, bad), engine.save_replay(pid, pl))
+        else:
+            run.suspect.append('%s VoronoiIntegrator::with_faces: cell slots are not mapped in place (Some, None, Some)' % pid)
 
 
 def check_integrator_with_faces_native(p, profile='debug'):
